@@ -158,7 +158,40 @@ PrintCases == {CaseOf("C01/print/0", <<PrintS(<<>>), Lbl("x")>>),
                CaseOf("C01/print/mixed", <<Def1("a", IntL("3")), Def1("b", BoolL(FALSE)), Def1("c", StrL("two words")), PrintS(<<Var("c"), Var("b"), Var("a"), StrL(""), Var("c")>>)>>),
                CaseOf("C01/print/nil", <<VarDef(<<"e">>, "error", <<>>), PrintS(<<CmpE("==", Var("e"), Nil), CmpE("!=", Var("e"), Nil)>>), Asg1("e", StrL("bad")), PrintS(<<Var("e"), CmpE("!=", Var("e"), Nil)>>)>>)}
 
-All == NotCmp \cup NotOther \cup Arith1 \cup Arith2 \cup ArithVar \cup Arith3 \cup Logic2 \cup LogicNot \cup CmpInt \cup CmpStr \cup CmpBool \cup Mixed \cup StrConcat
+\* simultaneous assignment with values that are more than a plain variable read: every wrapping of a variable that is also a target of the same
+\* statement (parentheses, itoa, an identity operation, negation), swaps, rotations and dependent pairs, as assignment and as partial redefinition
+WrapI(w, v) == CASE w = "plain" -> Var(v) [] w = "grp" -> Grp(Var(v)) [] w = "grp2" -> Grp(Grp(Var(v))) [] w = "plus0" -> Bin("+", Var(v), IntL("0")) [] w = "times1" -> Bin("*", IntL("1"), Var(v))
+Wraps == {"plain", "grp", "grp2", "plus0", "times1"}
+TupleCases ==
+  {CaseOf("C01/tuple/swap/" \o w1 \o "-" \o w2, <<Def(<<"a", "b">>, <<IntL("1"), IntL("2")>>), Asg(<<"a", "b">>, <<WrapI(w1, "b"), WrapI(w2, "a")>>), PrintS(<<Var("a"), Var("b")>>)>>) : w1 \in Wraps, w2 \in Wraps}
+  \cup {CaseOf("C01/tuple/rot3/" \o w, <<Def(<<"a", "b", "c">>, <<IntL("1"), IntL("2"), IntL("3")>>), Asg(<<"a", "b", "c">>, <<WrapI(w, "b"), WrapI(w, "c"), WrapI(w, "a")>>), PrintS(<<Var("a"), Var("b"), Var("c")>>),
+                                           Asg(<<"c", "a", "b">>, <<WrapI(w, "a"), WrapI(w, "b"), WrapI(w, "c")>>), PrintS(<<Var("a"), Var("b"), Var("c")>>)>>) : w \in Wraps}
+  \cup {CaseOf("C01/tuple/itoa", <<Def(<<"n", "s">>, <<IntL("7"), StrL("x")>>), Asg(<<"n", "s">>, <<Bin("+", Var("n"), IntL("1")), Itoa(Var("n"))>>), PrintS(<<Var("n"), Var("s")>>),
+                                    Asg(<<"s", "n">>, <<Itoa(Var("n")), Bin("*", Var("n"), IntL("2"))>>), PrintS(<<Var("n"), Var("s")>>)>>),
+         CaseOf("C01/tuple/fib", <<Def(<<"f0", "f1", "label">>, <<IntL("0"), IntL("1"), StrL("")>>),
+                                   For3(Def1("i", IntL("0")), CmpE("<", Var("i"), IntL("5")), Inc("i"), <<Asg(<<"f0", "f1", "label">>, <<Var("f1"), Bin("+", Var("f0"), Var("f1")), Itoa(Var("f0"))>>), PrintS(<<Var("f0"), Var("f1"), Var("label")>>)>>)>>),
+         CaseOf("C01/tuple/bools", <<Def(<<"p", "q">>, <<BoolL(TRUE), BoolL(FALSE)>>), Asg(<<"p", "q">>, <<Not(Var("p")), Grp(Var("p"))>>), PrintS(<<Var("p"), Var("q")>>), Asg(<<"q", "p">>, <<Lgc("&&", Var("p"), Var("q")), Not(Grp(Var("q")))>>), PrintS(<<Var("p"), Var("q")>>)>>),
+         CaseOf("C01/tuple/strings", <<Def(<<"s", "t">>, <<StrL("a b"), StrL("c")>>), Asg(<<"s", "t">>, <<Bin("+", Var("t"), Var("s")), Grp(Var("s"))>>), PrintS(<<Var("s"), StrL("|"), Var("t")>>)>>),
+         CaseOf("C01/tuple/partial-redefinition", <<Def(<<"a", "b">>, <<IntL("1"), IntL("2")>>), Def(<<"b", "c">>, <<Grp(Var("a")), Grp(Var("b"))>>), PrintS(<<Var("a"), Var("b"), Var("c")>>),
+                                                    Def(<<"d", "a">>, <<Itoa(Var("a")), Bin("+", Var("a"), IntL("10"))>>), PrintS(<<Var("d"), Var("a")>>)>>),
+         CaseOf("C01/tuple/compound-after", <<Def(<<"a", "b">>, <<IntL("5"), IntL("3")>>), Asg(<<"a", "b">>, <<Bin("-", Var("a"), Var("b")), Grp(Bin("+", Var("a"), Var("b")))>>), PrintS(<<Var("a"), Var("b")>>)>>)}
+\* a jump of the OUTER loop placed before, after or between loops nested in its body: whatever a back-end keeps per loop must name the loop the
+\* statement belongs to, not the one that was converted last
+JOuter(form, body) == CASE form = "for3" -> <<For3(Def1("o", IntL("0")), CmpE("<", Var("o"), IntL("4")), Inc("o"), body)>>
+                        [] form = "forcond" -> <<Def1("o", IntL("-1")), ForCond(CmpE("<", Var("o"), IntL("3")), <<Inc("o")>> \o body)>>
+                        [] form = "range" -> <<RangeS("o", "", StrL("abcd"), body)>>
+JInner(form, v) == CASE form = "for3" -> <<For3(Def1(v, IntL("0")), CmpE("<", Var(v), IntL("2")), Inc(v), <<PrintS(<<StrL(v), Var("o"), Var(v)>>)>>)>>
+                     [] form = "forcond" -> <<Def1(v, IntL("0")), ForCond(CmpE("<", Var(v), IntL("2")), <<Inc(v), PrintS(<<StrL(v), Var("o"), Var(v)>>)>>)>>
+                     [] form = "range" -> <<RangeS(v, "", StrL("xy"), <<PrintS(<<StrL(v), Var("o"), Var(v)>>)>>)>>
+JStmt(j) == If1(CmpE("==", Var("o"), IntL("1")), <<IF j = "continue" THEN ContinueS ELSE BreakS>>)
+JumpPlaces == {"before", "after", "between", "afterboth"}
+OuterJump == {CaseOf("C01/outerjump/" \o fo \o "-" \o fi \o "/" \o j \o "/" \o pl,
+                     JOuter(fo, CASE pl = "before" -> <<JStmt(j)>> \o JInner(fi, "i") \o <<Lbl("tail")>>
+                                  [] pl = "after" -> JInner(fi, "i") \o <<JStmt(j), Lbl("tail")>>
+                                  [] pl = "between" -> JInner(fi, "i") \o <<JStmt(j)>> \o JInner(fi, "k") \o <<Lbl("tail")>>
+                                  [] pl = "afterboth" -> JInner(fi, "i") \o JInner("for3", "k") \o <<JStmt(j), Lbl("tail")>>) \o <<Lbl("end")>>)
+              : fo \in {"for3", "forcond", "range"}, fi \in {"for3", "forcond", "range"}, j \in {"continue", "break"}, pl \in JumpPlaces}
+All == OuterJump \cup TupleCases \cup NotCmp \cup NotOther \cup Arith1 \cup Arith2 \cup ArithVar \cup Arith3 \cup Logic2 \cup LogicNot \cup CmpInt \cup CmpStr \cup CmpBool \cup Mixed \cup StrConcat
        \cup Nest1 \cup Nest2 \cup Seq2 \cup Nest3 \cup DefCases \cup CompoundCases \cup IncDecCases \cup PanicAt \cup ItoaCases \cup PrintCases
 ASSUME ndJsonSerialize("fam.ndjson", SetToSeq(All))
 =============================================================================
